@@ -23,7 +23,7 @@ def run(pid, tier):
         'traces_validated_against_impl': len(rows) - len(res['fails']), 'evaluations': len(rows),
         'distinct_nontrivial': len(set(json.dumps([r['input'], r['settings']['name']]) for r in rows if any(x['name'] == 'TICK' for x in r['input']) and any(x['name'] == 'M' for x in r['input']))),
         'rule': 'circuits: exporter outputs of the repetition-code constructor (d=2,3; 0..4 cycles) and random instruction sequences over {R,X,H,CZ,M,TICK,DETECTOR,SQRT_Y,I} on <=5 qubits, '
-                'each dressed by the real apply_noise under 3 settings tables (distinct per-qubit T1/T2/assignment errors, non-default durations, total / partial / foreign index maps); '
+                'each dressed by the real apply_noise under 3 settings tables (distinct per-qubit T1/T2/assignment errors, non-default durations, total / partial / foreign index maps), plus sessions in which ONE NoiseSettings object is reused over three calls with the original, a rotated and again the original index map; '
                 'non-trivial = input with a TICK and a measurement',
         'samples': [{'src': rows[0]['src'], 'settings': rows[0]['settings'], 'output_head': rows[0]['output'][:8]}],
         'mc': {'module': 'MCNoise', 'distinct_states': mc.distinct, 'invariant': 'Inv (Strip(Dress(c)) = c with targets split; idle count)'},
